@@ -47,6 +47,7 @@ void harness(void) {
 		e->addr[0] = e->addr[1] = e->addr[2] = e->addr[3] = 0;
 		g_queue_push_tail(q, e);
 	}
+	verif_queue_tag(uplink_queue, L_UPLINK); verif_queue_tag(uplink_error_queue, L_UPLINK_ERR); verif_queue_tag(uplink_intern_queue, L_UPLINK_INTERN);
 	bidib_lowlevel_debug_mode = !ERRQ;
 	uint8_t pay[ADDS];
 	uint8_t *added[ADDS];
@@ -54,7 +55,9 @@ void harness(void) {
 		pay[k] = ND_u8("payload");
 		uint8_t type = ERRQ ? MSG_SYS_ERROR : MSG_SYS_PONG;   /* routing of all types is C06-H1 */
 		added[k] = mk(FILL + k, type, pay[k]);
+		verif_tags_armed = true;
 		bidib_handle_received_message(added[k], type, addr, 1, 0);
+		verif_tags_armed = false;
 		VASSERT(g_queue_get_length(q) <= BOUND, "a queue never holds more than 128 entries");
 	}
 	unsigned total = FILL + ADDS;
@@ -73,7 +76,9 @@ void harness(void) {
 	}
 	/* read back through the real API: oldest first, each once, caller owns the buffer */
 	for (unsigned i = 0; i < READS; i++) {
+		verif_tags_armed = true;
 		uint8_t *m = ERRQ ? bidib_read_error_message() : bidib_read_message();
+		verif_tags_armed = false;
 		if (i < expect_len) {
 			VASSERT(m != NULL, "every queued message is returned");
 			if (m != NULL) {
